@@ -10,17 +10,25 @@ def sh(cmd, cwd=None, env=ENV, timeout=7200):
 prop = sys.argv[1]
 extra = []
 args = sys.argv[2:]
+src = '/tmp/seed/%seq' % prop
+tag = 'eq'
+vdir = '/verif'
 while args:
     a = args.pop(0)
     if a == '--props':
         extra = args.pop(0).split(',')
-src = '/tmp/seed/%seq' % prop
+    elif a == '--src':
+        src = args.pop(0)
+    elif a == '--tag':
+        tag = args.pop(0)
+    elif a == '--dir':
+        vdir = args.pop(0)
 os.makedirs('/tmp/mut', exist_ok=True)
 for k in sorted(os.listdir(src)):
     d = os.path.join(src, k)
     if not os.path.isfile(os.path.join(d, 'patch.diff')):
         continue
-    name = '%s-eq%s' % (prop, k)
+    name = '%s-%s%s' % (prop, tag, k)
     try:
         meta = json.load(open(os.path.join(d, 'meta.json')))
     except Exception as e:
@@ -31,17 +39,19 @@ for k in sorted(os.listdir(src)):
     try:
         rc, out = sh('git apply %s' % os.path.join(d, 'patch.diff'), cwd=wt)
         if rc != 0:
+            rc, out = sh('git apply --3way %s && git reset -q' % os.path.join(d, 'patch.diff'), cwd=wt)
+        if rc != 0:
             print(name, 'patch does not apply'); continue
         rc, out = sh('go build ./... && go test -vet=off -count=1 ./...', cwd=wt)
         rec['suite_passes'] = rc == 0
         res = {}
         for p in [prop] + extra:
-            rc, out = sh('./check %s quick' % p, cwd='/verif', env=dict(os.environ, VERIF_REPO=wt))
+            rc, out = sh('./check %s quick' % p, cwd=vdir, env=dict(os.environ, VERIF_REPO=wt))
             lines = [l for l in out.splitlines() if l.startswith('  kind=')][:3]
             res[p] = {'exit': rc, 'first_violations': lines}
         rec['checks'] = res
         rec['alarms'] = [p for p, c in res.items() if c['exit'] != 0]
-        dst = os.path.join('/verif/equivalents', name)
+        dst = os.path.join(vdir, 'equivalents', name)
         os.makedirs(dst, exist_ok=True)
         shutil.copy(os.path.join(d, 'patch.diff'), dst)
         m = dict(meta); m['evaluation'] = rec
